@@ -180,6 +180,16 @@ def oracle(cfg, actions, sysm):
             # enter/body/exit may be cut short; still: never a body without a completed enter, never two enters
             if kinds.count("enterstart") > 1 or (kinds.count("bodystart") and not kinds.count("entered")):
                 return "pairing", "call %d: %r" % (i, kinds)
+            be = [e for e in proj if e[0] == "bodyend"]
+            if be and be[0][2] == ("cancel",):
+                # cancelled inside the body: the context is exited with that very exception
+                xs = [e for e in proj if e[0] == "exitstart"]
+                if len(xs) != 1 or xs[0][3] != ("cancel",):
+                    return "exit-exception", "call %d was cancelled in its body but the context was exited with %r" % (i, [e[3] for e in xs])
+                if "exited" in kinds:
+                    expect = "suppressed" if cfg["suppress"] else ("cancel",)
+                    if res[0][2] != expect:
+                        return "result", "call %d (cancelled in body) ended with %r, expected %r" % (i, res[0][2], expect)
             continue
         want = ["enterstart", "entered", "bodystart", "bodyend", "exitstart", "exited", "result"]
         if kinds != want:
